@@ -87,7 +87,7 @@ private def parseCw? (s : String) : Option (Cookware (Value Float)) :=
   | _ => none
 
 /-- `<k> <ing>×k` repeated until the tokens run out -/
-private partial def parseRecipes? (toks : List String) : Option (List (ScaledRecipe Float)) :=
+partial def parseRecipes? (toks : List String) : Option (List (ScaledRecipe Float)) :=
   match toks with
   | [] => some []
   | k :: rest => do
